@@ -789,3 +789,54 @@ def c15(chk, tier):
 
 def c15_wiring(chk, ses, thorough):
     pass
+
+
+# ------------------------------------------------------------------------------------------- C13
+@prop("C13")
+def c13(chk, tier):
+    thorough = tier == "thorough"
+    chk.assumptions += [
+        "the executor is built with overflow checks and debug assertions, so an arithmetic wrap is a panic; every call "
+        "runs under catch_unwind and a panic is a result kind the specification never predicts for these entry points",
+        "inputs of the length classes {0,1,15,16,17,31..33,63..67,96..98,132..134,65535,65536,70000} with seeded contents; "
+        "the expected result of every call comes from the specification (error variant and payload included)"]
+    ses = Session(chk)
+    try:
+        n = [0]
+
+        def on(v):
+            last = v["last"]
+            ses.replay([last], exact_tags=ALL, label=last["op"], sample=(n[0] % 401 == 0))
+            n[0] += 1
+            chk.case(codec_key(last))
+        for part in ("lengths", "kdf"):
+            generate(chk, "MC_Codec", "MC_Codec.cfg", "gen_" + part, codec_over(part), invariants=None, on_value=on, workers=2)
+        # key derivation from ikm of any length
+        stateless_calls(chk, ses, "MC_Kem", "MC_Kem.cfg", "gen_ikm", dict(KemSet=kset(KEMS), NIkm="0", SmallOrder="FALSE", Emit="TRUE"),
+                        ALL, lambda l: ("ikm", l["plain"]["kem"], _digest(l["bytes"])), want=lambda l: l["op"] == "derive_keypair")
+        # opening entry points: arbitrary bytes of every length class, both forms, 3 AEADs (raw contexts)
+        for aead in (1, 2, 3):
+            batch = TransitionBatch(ses, label="open garbage aead=%d" % aead)
+
+            def ono(tr, batch=batch, aead=aead):
+                l = tr["last"]
+                if l["op"] == "open":
+                    batch.add(tr)
+                    chk.case(("og", aead, l["form"], json.dumps(l["plain"], sort_keys=True), tuple(l["pre"]["seq"]), l["pre"]["ovf"]))
+            generate(chk, "MC_Seq", "MC_Seq.cfg", "gen_garbage_%d" % aead,
+                     seq_over(AeadC=aead, Starts='"edge"', Menu='"lengths"', Emit=True, MaxSeals=1, MaxOpens=1),
+                     invariants=[], on_value=ono, workers=4)
+            batch.run()
+        # setup / seal / open / export / single-shot with very long info, psk, psk_id, aad, plaintext, exporter context
+        for i, kem in enumerate(KEMS):
+            over = setup_over(KemSet="{%d}" % kem, KdfSet="{1, 2, 3}" if thorough else kset([rot([1, 2, 3], i)]),
+                              AeadSet="{1, 2, 3}" if thorough else kset([rot([1, 2, 3], i + 1)]),
+                              Vals='"long"', Shape='"all"' if thorough else '"one"', Perturb='{"none", "info"}', Emit=True,
+                              MaxSeals=1, MaxOpens=1, MaxExports=1, FormMenu='{"alloc", "detached"}')
+            setup_transitions(chk, ses, "gen_long_%d" % kem, over, casekey=tr_key("c13"), compare_bytes=False)
+    finally:
+        ses.close()
+    chk.cov["rule"] = ("every byte-consuming entry point (key / encapsulated key / tag deserialisation, doc-hidden KDF helpers, "
+                       "DeriveKeyPair, receiver and sender setup, seal, open in both forms, export, PskBundle::new) x length "
+                       "classes incl. 0, tag length +-1, block boundaries, 65535, 65536, 70000 x 4 KEMs x KDF/AEAD (rotating "
+                       "in quick); distinct = distinct (call, algorithm, argument lengths, context state)")
